@@ -310,6 +310,8 @@ func ZZVerifC09Mix() {
 	fsi, _ := NewFilespace()
 	fs := fsi.(*Filespace)
 	nd.Assume(fs.WriteFile("d/f", []byte("00"), filesystem.DefaultUnixFileMode) == nil)
+	// a second entry behind d/f: removing d/f then moves it inside the list
+	nd.Assume(fs.WriteFile("d/k", []byte("kk"), filesystem.DefaultUnixFileMode) == nil)
 	g := nd.Param("MG", 2)
 	kinds := make([]int, g)
 	vals := make([][]byte, g)
@@ -318,7 +320,7 @@ func ZZVerifC09Mix() {
 		vals[i] = nd.Bytes("val", 2)
 	}
 	complete := func(d []byte) bool {
-		ok := bytes.Equal(d, []byte("00"))
+		ok := nd.Or(bytes.Equal(d, []byte("00")), bytes.Equal(d, []byte("kk")))
 		for i := 0; i < g; i++ {
 			ok = nd.Or(ok, bytes.Equal(d, vals[i]))
 		}
@@ -333,7 +335,7 @@ func ZZVerifC09Mix() {
 		}(i)
 	}
 	wg.Wait()
-	for _, p := range []string{"d/f", "d/g", "e/f", "e/g"} {
+	for _, p := range []string{"d/f", "d/g", "d/k", "e/f", "e/g", "e/k"} {
 		if d, err := fs.ReadFile(p); err == nil {
 			nd.Assert(complete(d), "C09/mix-file-holds-complete-value")
 		}
